@@ -15,11 +15,16 @@ type wkvC01Harness struct {
 	local  ch.NodeID
 	stores map[ch.NodeID]ReplicaStore
 	down   map[ch.NodeID]bool
+	// beforeProbe runs before a probe is answered (used to race a stale leader)
+	beforeProbe func(recoveryProbeQuery)
 }
 
 var errWkvC01Down = errors.New("verif: voter down")
 
 func (h *wkvC01Harness) submitRecoveryProbe(_ context.Context, q recoveryProbeQuery, complete func(ProbeResult, error)) error {
+	if h.beforeProbe != nil {
+		h.beforeProbe(q)
+	}
 	if h.down[q.Voter] {
 		complete(ProbeResult{}, errWkvC01Down)
 		return nil
@@ -106,11 +111,18 @@ func TestWkvBoundedRecoverySchedules(t *testing.T) {
 			}
 			for _, newLeader := range []ch.NodeID{2, 3} {
 				for _, d2 := range downSets {
+				for _, race := range []bool{false, true} {
 					if len(d2) == 1 && d2[0] == newLeader {
 						continue
 					}
+					if race && len(d2) == 1 && d2[0] == 1 {
+						continue // the stale leader must answer the probes to race them
+					}
 					cases++
 					key := fmt.Sprintf("entries=%d commit-unreachable=%v new-leader=%d install-unreachable=%v", m, d1, newLeader, d2)
+					if race {
+						key += " stale-leader-appends-between-probe-rounds"
+					}
 					stores := map[ch.NodeID]ReplicaStore{}
 					for _, v := range voters {
 						s, err := NewStoreAdapter(StoreAdapterConfig{Factory: channelstore.NewMemoryFactory(), MaxBatchItems: 4, MaxBatchBytes: 1 << 20})
@@ -119,8 +131,10 @@ func TestWkvBoundedRecoverySchedules(t *testing.T) {
 						}
 						stores[v] = s
 					}
+					var harnesses = map[ch.NodeID]*wkvC01Harness{}
 					mk := func(local ch.NodeID, down []ch.NodeID) *quorumLog {
 						h := &wkvC01Harness{local: local, stores: stores, down: map[ch.NodeID]bool{}}
+						harnesses[local] = h
 						for _, d := range down {
 							h.down[d] = true
 						}
@@ -152,6 +166,23 @@ func TestWkvBoundedRecoverySchedules(t *testing.T) {
 					a2.ID.LeaderTerm = 6
 					a2.Leader = newLeader
 					l2 := mk(newLeader, d2)
+					if race {
+						// the not yet fenced old leader appends its next proposal on its own disk
+						// only, after it answered the frontier round and before the identity page
+						fired := false
+						harnesses[newLeader].beforeProbe = func(q recoveryProbeQuery) {
+							if fired || q.Voter != 1 || len(q.Indexes) == 0 {
+								return
+							}
+							fired = true
+							h1 := harnesses[1]
+							saved := h1.down
+							h1.down = map[ch.NodeID]bool{2: true, 3: true}
+							_, _ = l1.Commit(context.Background(), Proposal{Key: a1.Key, Expected: a1.ID, CommandID: ch.CommandID{31: 77},
+								Records: []ch.Record{{ID: 777, Epoch: 3, FromUID: "s", ClientMsgNo: "c-777", Payload: []byte("stale"), SizeBytes: 5, ServerTimestampMS: 777}}})
+							h1.down = saved
+						}
+					}
 					_, err := l2.Install(context.Background(), a2)
 					if err != nil {
 						continue // not writable: nothing was lost
@@ -164,6 +195,7 @@ func TestWkvBoundedRecoverySchedules(t *testing.T) {
 					if after.LEO == tail.LEO && after.TailIdentity.Digest != tail.TailIdentity.Digest {
 						fmt.Printf("WKV-FINDING %s: install succeeded but the entry at the acknowledged sequence %d was replaced\n", key, last)
 					}
+				}
 				}
 			}
 		}
